@@ -31,6 +31,7 @@ RULE = ('one evaluation = one seeded run: a single-client sequence of 10-120 map
         'SHA-256 of program or event log')
 RULE += ' ' + "Sequences on an Index obtained from a FanoutCache / DjangoCache also contain the parent's own clear / expire / cull / evict / set / delete calls."
 RULE += ' ' + "The parent's calls include looking the same name up again; in 40 % of the runs with a parent the name holds ':' '*' '?' '|' '/' and sibling objects under colliding spellings hold marker items."
+RULE += ' ' + "A pass over items() / values() is interrupted by another handle replacing the last key's value with one kept in a file."
 ASSUMPTIONS = ['Index.setdefault is checked as the documented get/add loop (insert attempts + final lookup), not as one indivisible step',
                'key alphabet avoids pairs that Python treats as equal but diskcache documents as distinct (True/1, 2**63/2.0**63)']
 PROBES = ('fifo_churn', 'own_temporary_directory', 'lifecycle', 'from_fanout', 'from_django', 'parent_calls', 'named_with_special_characters', 'pass_overlaps_replacement', 'lock_wait', 'file_backed_replace')
